@@ -36,7 +36,7 @@ def rand_prms(rng, ceilos, heights_hint, rich=True):
     return p
 
 
-def rand_scene(rng, size='tiny', name=''):
+def rand_scene(rng, size='tiny', name='', routes=False):
     nce = rng.choice([1, 1, 2, 2, 3])
     ceilos = [['a', 'b', 'c'], ['1', '2', '10'], ['ceilo_A', 'ceilo_B', 'x']][rng.randrange(3)][:nce]
     if size == 'tiny':
@@ -84,7 +84,7 @@ def rand_scene(rng, size='tiny', name=''):
     out = {'family': 'R-' + size, 'name': name, 'rows': rows, 'prms': prms, 'indomain': True}
     if rng.random() < 0.3:
         out['index'] = rng.choice(['perceilo', 'perceilo', 'const', 'shuffled', 'offset', 'str', 'float'])
-    if rng.random() < 0.12:
+    if rng.random() < 0.12 and routes:
         # the parameters come through the global dictionary (no per-call dictionary at all), and the global dictionary is
         # edited once the chunk exists: the chunk must keep working with the values it was constructed with
         out['gprms'] = out['prms']
@@ -101,7 +101,7 @@ def rand_scenes(seed, n, size, tag='R'):
     out = []
     for i in range(n):
         rng = random.Random(f'{tag}:{seed}:{size}:{i}')
-        out.append(rand_scene(rng, size, name=f'{tag}-{size}-{seed}-{i}'))
+        out.append(rand_scene(rng, size, name=f'{tag}-{size}-{seed}-{i}', routes=True))
     return out
 
 
@@ -177,3 +177,26 @@ def crossing_scene(rng, name=''):
 
 def crossing_scenes(seed, n, tag='X'):
     return [crossing_scene(random.Random(f'{tag}:{seed}:{i}'), name=f'{tag}-crossing-{seed}-{i}') for i in range(n)]
+
+
+def negative_scene(rng, size='tiny', name=''):
+    """ a random scene lowered so that its lowest hits lie below the station level (negative heights are accepted input:
+    only a warning is issued). Codes are not defined there: the scene is outside the domain of the coding clauses. """
+    d = rand_scene(rng, size=size, name=name, routes=True)
+    hs = [r[2] for r in d['rows'] if r[2] is not None]
+    if not hs:
+        return d
+    shift = min(hs) + rng.choice([40, 250, 900, 2000])
+    for r in d['rows']:
+        if r[2] is not None:
+            r[2] = r[2] - shift
+    for blk in ('prms', 'gprms'):
+        if isinstance(d.get(blk), dict) and d[blk].get('MSA') is not None:
+            d[blk]['MSA'] = max(0, d[blk]['MSA'] - shift)
+    d['family'] = 'R-negative'
+    d['grammar'] = False
+    return d
+
+
+def negative_scenes(seed, n, size='tiny', tag='N'):
+    return [negative_scene(random.Random(f'{tag}:{size}:{seed}:{i}'), size=size, name=f'{tag}-{size}-{seed}-{i}') for i in range(n)]
